@@ -2105,6 +2105,27 @@ def f_work_stealing_pool(case):
     from happysimulator.components.scheduling import WorkStealingPool
     k = K(case)
     sink = Sink("sink")
+    if k[2] % 4:
+        # same-timestamp ties: 2-3 workers, every arrival and every duration on the tick grid (durations 1-3 ticks, load
+        # close to capacity), so workers that started at different instants keep finishing at exactly the same instant,
+        # one of them with an empty deque and another with a single queued task; plus bursts of workers+1..2 equal tasks
+        nw = 2 + k[0] % 2
+        rnd = rng_of(case, 97)
+        pool = WorkStealingPool("pool", num_workers=nw, downstream=sink, default_processing_time=ticks(1 + k[1] % 3),
+                                processing_time_key=["processing_time", "cost"][k[3] % 2])
+
+        def task(t, d):
+            return Event(time=T(t), event_type="Task", target=pool, context={"metadata": {"processing_time": ticks(d), "cost": ticks(d)}, "created_at": T(t)})
+        evs = []
+        for t in range(2, 70):
+            if t % 17 == 0:                                  # burst of equal tasks at one instant
+                d = 1 + rnd.randrange(3)
+                evs += [task(t, d) for _ in range(nw + 1 + rnd.randrange(2))]
+            else:
+                for _ in range(rnd.choice([0, 1, 1, 1, 2] if nw == 2 else [0, 1, 1, 2, 2])):
+                    evs.append(task(t, 1 + rnd.randrange(3)))
+        sim = mksim([pool, sink], 200, events=evs)
+        return Scenario(sim, workload=len(evs), extra=lambda: {"workers": pool.worker_stats})
     pool = WorkStealingPool("pool", num_workers=2 + k[0] % 3, downstream=sink, default_processing_time=ticks(1 + k[1] % 4))
     n = 50
     a = const_source("a", pool, 1, n, case["seed"])
